@@ -68,6 +68,10 @@ def _gen(rng, i=None):
         return 'unencodable_in_prefix', pre + bad + gen.gen_random(rng, True, 0, 3)
     if k < 0.75:
         return 'handover', gen.tmpl_handover(rng)
+    if k < 0.87:
+        # stack 0 as a data stack: own values parked on it, then commands / areas that dig down to (and past) them - the
+        # optimiser may use what the program put there, but the first pop that would need a real line must stop it
+        return 'stack0_data', gen.tmpl_stack0_data(rng, nan_share=0.15, area_share=0.6)
     name, prog = gen.gen_case(rng, allow_input=True)
     return name, prog
 
